@@ -23,6 +23,8 @@ def ae_io_parser(func: Callable[..., Any]) -> Callable[..., Any]:
             y = y0.array  # Convert y0 from Vars to np.ndarray
         else:
             y = y0
+        # the solver works on (and may return) its own array, never the caller's
+        y = np.array(y)
 
         # Dispatch AE solvers and capture results
         sol = func(eqn, y, opt)
